@@ -214,7 +214,7 @@ def cases(size, seed, limit):
     # same functor name with two arities, and a Python string constant spelled like an atom: must never unify
     terms = mirror.enum_terms(size, funs=(('f', 1), ('g', 2), ('f', 2)), consts=(1, 'a'))
     # the Python constants None / 0 / '' / False are constants like any other (never a wildcard, never 'unbound')
-    odd = [('const', None), ('const', 0), ('const', ''), ('const', False)]
+    odd = [('const', None), ('const', 0), ('const', ''), ('const', False), ('const', 1.0), ('const', True)]      # 1 == 1.0 == True in Python
     small = mirror.enum_terms(min(size, 2))
     pres = [[]]
     for v in range(3):
@@ -252,6 +252,10 @@ def cases(size, seed, limit):
     leaves = [t for t in terms if t[0] != 'fun'][:8]
     oddp = [(o, t) for o in odd for t in leaves + odd + [('fun', 'f', (o,)), ('fun', 'g', (('var', 0), o))]]
     oddp += [(('fun', 'g', (('var', 0), ('var', 0))), ('fun', 'g', (o, ('const', 5)))) for o in odd]
+    # constants of different Python types as ARGUMENTS of compound terms: equal iff Python's == says so, as at the top level
+    consts_ = [t for t in leaves if t[0] == 'const'] + odd
+    oddp += [(('fun', 'f', (o,)), ('fun', 'f', (t,))) for o in odd for t in consts_]
+    oddp += [(('fun', 'g', (('atom', 'a'), o)), ('fun', 'g', (('var', 0), t))) for o in odd for t in consts_]
     allc = special + [(y, x) for x, y in special] + oddp + [(y, x) for x, y in oddp] + allc
     n = 0
     hows = ['exhaust', 'close', 'drop', 'throw']
